@@ -200,6 +200,20 @@ CHECKS["C11"] = (
     "DESIGN.md section 3, C11",
 )
 
+CHECKS["C17"] = (
+    "BFS + ENUM",
+    "model_checking",
+    "explicit-state breadth-first search over histories of cache computations and serializations on real trees; exhaustive literal alphabet for SMT formula pickling; all universe trees through the CLI JSON reader",
+    "(a) From six seed trees, every history of length <= 3 (thorough 4) over fifteen operations (k-path computations on root and child, "
+    "structural hash, hash, is_open, str, paths, trie, len, pickle round trip, to_json, from_json(to_json), deepcopy, pickle of a child) is "
+    "replayed on a fresh real tree; after every step ALL observers run again on the original and on any decoded tree and are compared with "
+    "the nested-tuple reference. (b) seven SMT atom skeletons x all pairs of 16 string literals (quotes, backslashes incl. trailing, newline, "
+    "tab, NUL, Latin-1, BMP, \\u-lookalike text) with and without substituted trees: the unpickled formula must equal the original and "
+    "print identically. (c) every tree of three grammar universes and open prefixes through derivation_tree_to_json and the CLI's JSON reader.",
+    "States are merged only when the set of operations applied, the serialization count and the per-node cache signature agree.",
+    "DESIGN.md section 3, C17",
+)
+
 NOT_YET = "check not built yet in this round (planned in DESIGN.md section 3)"
 
 
